@@ -251,6 +251,9 @@ RENAMINGS = [
     ("keyword-like", {"a": "class", "b": "def", "c": "lambda", "d": "import", "xs": "global", "ys": "yield", "m0": "pass", "m1": "raise",
                       "ns0": "with_"}),
     ("unicode", {"a": "é", "b": "变量", "c": "ß", "d": "ñandú", "xs": "список", "ys": "λs", "m0": "macró", "m1": "μ", "ns0": "空间"}),
+    # names that are distinct strings but equal after NFKC normalisation (Python compares identifiers in NFKC form), and
+    # names whose NFKC form is one the engine gives a meaning to (kwargs, caller, loop) — distinct template names all the same
+    ("compat-forms", {"a": "ﬁ", "b": "fi", "c": "ｋwargs", "d": "ℌ", "xs": "H", "ys": "ｌoop", "m0": "ﬂow", "m1": "flow", "ns0": "ｃaller"}),
 ]
 
 
@@ -383,13 +386,28 @@ def alpha_pass(ctx, res, jinja2, env, programs, srcs, rng):
 
 
 def nfkc_probe(res, jinja2):
-    """distinct identifiers never alias — false for names that differ only by NFKC normalisation (known finding F2)"""
+    """distinct identifiers never alias, also when they differ only by NFKC normalisation (was known finding F2; fixed in /repo 92ecb58)"""
     env = jinja2.Environment()
     out = env.from_string("{% set ﬁ = 1 %}{% set fi = 2 %}{{ ﬁ }}|{{ fi }}").render()
     if out != "1|2":
         res.violate("C03:identifier-aliasing:nfkc", f"'{{% set ﬁ = 1 %}}{{% set fi = 2 %}}{{{{ ﬁ }}}}|{{{{ fi }}}}' renders {out!r} (expected '1|2'): "
                     "the generated Python identifiers l_0_ﬁ and l_0_fi are the same identifier after NFKC normalisation",
                     {"src": "{% set ﬁ = 1 %}{% set fi = 2 %}{{ ﬁ }}|{{ fi }}"})
+    for src, data, want in [
+        ("{% macro m(ﬁ, fi) %}{{ ﬁ }}{{ fi }}{% endmacro %}{{ m(1, 2) }}{{ m(fi=3, ﬁ=4) }}", {}, "1243"),
+        ("{% macro m(ｋwargs) %}{{ ｋwargs }}{{ kwargs }}{% endmacro %}{{ m(1, z=2) }}", {}, "1{'z': 2}"),
+        ("{% for ﬁ in [1, 2] %}{{ ﬁ }}{{ fi }}{% endfor %}", {"fi": "X"}, "1X2X"),
+        ("{% block ﬁ %}A{% endblock %}|{% block fi %}B{% endblock %}", {}, "A|B"),
+        ("{% set ns = namespace(ﬁ=1, fi=2) %}{{ ns.ﬁ }}{{ ns.fi }}", {}, "12"),
+        ("{% with ℌ = 1, H = 2 %}{{ ℌ }}{{ H }}{% endwith %}", {}, "12"),
+    ]:
+        try:
+            got = env.from_string(src).render(data)
+        except Exception as e:  # noqa
+            got = f"raised:{type(e).__name__}"
+        if got != want:
+            res.violate("C03:identifier-aliasing:nfkc", f"{src!r} renders {got!r} (expected {want!r}): two template names that are "
+                        "different strings but equal in NFKC form share one generated Python identifier", {"src": src})
     out2 = env.from_string("{{ ﬁ }}|{{ fi }}").render({"ﬁ": 1, "fi": 2})
     if out2 != "1|2":
         res.violate("C03:identifier-aliasing:nfkc", f"context names ﬁ=1, fi=2 render {out2!r}", {"src": "{{ ﬁ }}|{{ fi }}"})
